@@ -735,7 +735,11 @@ func setValue(dest, v reflect.Value, c *_conv) {
 	if dest.Kind() == reflect.Slice && v.Kind() == reflect.Slice && dest.Type().Elem().Kind() != reflect.Uint8 {
 		// a list that arrived untyped (or under another list type) inside a list, a map or a struct:
 		// converted like one that is assigned to a field directly
-		if cv, err := convertSlice(dest.Type(), v, c); err == nil && cv.IsValid() {
+		if cv, err := convertSlice(dest.Type(), v, c); err == nil {
+			if !cv.IsValid() {
+				// an empty list: the destination keeps its zero value (nil and empty lists are one)
+				return
+			}
 			v = cv
 		}
 	}
